@@ -15,7 +15,7 @@ import networkx as nx
 import biodivine_aeon as ba
 
 from .cab import CTX, Unmodelled, SymInt
-from .symnet import refines, in_space, meet
+from .symnet import refines, in_space, meet, fNot
 
 import biobalm
 import biobalm.succession_diagram as SDM
@@ -39,7 +39,8 @@ import biobalm.symbolic_utils as SYU
 REAL = {}          # name -> original object
 _PATCHED = []      # (module, attr, original)
 LIST_ORDER = "canonical"   # canonical | reversed | real : resolution of oracle list order
-FAULT = {"at": None, "count": 0}   # fault injection: raise in the k-th region call
+# fault injection: raise in the k-th *solver* call (the ASP solver regions; C15 quantifies over solver calls)
+FAULT = {"at": None, "count": 0, "regions": ("trappist", "compute_fixed_point_reduced_STG")}
 
 
 def _biobalm_modules():
@@ -114,13 +115,14 @@ def rawspace(d):
 
 
 def fault_point(region):
-    FAULT["count"] += 1
+    """fault injection (C15): the k-th region call raises instead of returning; k may be symbolic"""
     at = FAULT["at"]
-    if at is not None:
-        k = at if isinstance(at, int) else at
-        hit = (FAULT["count"] == k) if isinstance(k, int) else (SymInt(z3.IntVal(FAULT["count"])) == k)
-        if hit:
-            raise RuntimeError(f"injected solver failure in {region} (call {FAULT['count']})")
+    if at is None or region not in FAULT["regions"]:
+        return
+    FAULT["count"] += 1
+    if at == FAULT["count"]:
+        FAULT["fired"] = region
+        raise RuntimeError(f"injected solver failure in {region} (call {FAULT['count']})")
 
 
 def order(lst, key=None):
@@ -453,9 +455,10 @@ def w_feedback_vertex_set(network, parity=None, subgraph=None):
 
 
 def w_percolate_space(network, space):
+    if CTX.opaque == 0:
+        fault_point("percolate_space")
     r = REAL["percolate_space"](unwrap(network), space)
     if CTX.active and CTX.opaque == 0:
-        fault_point("percolate_space")
         nctx = nctx_of(network)
         net = CTX.net
         base, V = nctx
@@ -552,11 +555,17 @@ def _spaces_to_global(nctx, lst):
 
 def w_trappist(network, problem="min", reverse_time=False, solution_limit=None, ensure_subspace=None,
                avoid_subspaces=None, optimize_source_variables=None):
+    if CTX.opaque == 0:
+        fault_point("trappist")
     if not CTX.active or CTX.opaque > 0:
         return REAL["trappist"](unwrap(network), problem=problem, reverse_time=reverse_time, solution_limit=solution_limit,
                                 ensure_subspace=ensure_subspace, avoid_subspaces=avoid_subspaces,
                                 optimize_source_variables=optimize_source_variables)
-    fault_point("trappist")
+    if isinstance(network, nx.DiGraph) and network.number_of_nodes() == 0:
+        # the empty net of a fixed-point node: the answer depends on the arguments only
+        return REAL["trappist"](network, problem=problem, reverse_time=reverse_time, solution_limit=solution_limit if not isinstance(solution_limit, SymInt) else None,
+                                ensure_subspace=ensure_subspace, avoid_subspaces=avoid_subspaces,
+                                optimize_source_variables=optimize_source_variables)
     if reverse_time:
         raise Unmodelled("trappist(reverse_time=True) in coarse mode")
     nctx = nctx_of(network, ensure_subspace)
@@ -599,23 +608,41 @@ def w_trappist(network, problem="min", reverse_time=False, solution_limit=None, 
             CTX.mismatch.append(("trappist", f"answer {M} outside the candidate set"))
     res = order(full)
     if lim is not None:
-        if isinstance(lim, SymInt):
-            # classes merge all limits that truncate identically
-            if lim >= len(res):
-                pass
-            else:
-                k = lim.concrete()
-                res = res[:max(k, 1)] if len(res) > 0 else res
-        else:
-            res = res[:max(lim_c, 1)] if lim_c < len(res) else res
+        def real_len(k):
+            return len(REAL["trappist"](unwrap(network), problem=problem, reverse_time=False, solution_limit=k,
+                                        ensure_subspace=ensure_subspace, avoid_subspaces=avoid_subspaces,
+                                        optimize_source_variables=optimize_source_variables))
+        res = _truncate(res, lim, real_len, "trappist")
     return res
 
 
+def _truncate(res, lim, real_len, region):
+    """apply a solution limit the way the real region does (its truncation length is measured, not assumed);
+    classes merge all symbolic limits that do not truncate"""
+    if isinstance(lim, SymInt):
+        if lim >= len(res):
+            k = None
+        else:
+            k = lim.concrete()
+    else:
+        k = int(lim) if int(lim) < len(res) else None
+    if k is None:
+        return res
+    n = real_len(k)
+    if n > len(res) or n > max(k, 0) + 1:
+        CTX.mismatch.append((region, f"limit {k} returned {n} answers"))
+    return res[:n]
+
+
 def w_rfp(petri_net, retained_set={}, ensure_subspace={}, avoid_subspaces=[], solution_limit=None):
+    if CTX.opaque == 0:
+        fault_point("compute_fixed_point_reduced_STG")
     if not CTX.active or CTX.opaque > 0:
         return REAL["compute_fixed_point_reduced_STG"](petri_net, retained_set, ensure_subspace=ensure_subspace,
                                                        avoid_subspaces=avoid_subspaces, solution_limit=solution_limit)
-    fault_point("compute_fixed_point_reduced_STG")
+    if petri_net.number_of_nodes() == 0:
+        return REAL["compute_fixed_point_reduced_STG"](petri_net, retained_set, ensure_subspace=ensure_subspace,
+                                                       avoid_subspaces=avoid_subspaces, solution_limit=None)
     nctx = nctx_of(petri_net)
     net = CTX.net
     full = REAL["compute_fixed_point_reduced_STG"](petri_net, retained_set, ensure_subspace=ensure_subspace,
@@ -643,16 +670,11 @@ def w_rfp(petri_net, retained_set={}, ensure_subspace={}, avoid_subspaces=[], so
         if y not in spec:
             CTX.mismatch.append(("rfp", f"answer {y} outside the candidate set"))
     res = order(full)
-    lim = solution_limit
-    if lim is not None:
-        if isinstance(lim, SymInt):
-            if lim >= len(res):
-                pass
-            else:
-                k = lim.concrete()
-                res = res[:max(k, 1)] if res else res
-        else:
-            res = res[:max(int(lim), 1)] if int(lim) < len(res) else res
+    if solution_limit is not None:
+        def real_len(k):
+            return len(REAL["compute_fixed_point_reduced_STG"](petri_net, retained_set, ensure_subspace=ensure_subspace,
+                                                               avoid_subspaces=avoid_subspaces, solution_limit=k))
+        res = _truncate(res, solution_limit, real_len, "rfp")
     return res
 
 
@@ -670,35 +692,63 @@ def w_compute_attractors_symbolic(sd, node_id, candidate_states, seeds_only=Fals
         CTX.opaque -= 1
     node = sd.node_data(node_id)
     nctx = nctx_of(sd.network)
-    if nctx[1] is not None or any(b is not None for b in nctx[0]):
-        raise Unmodelled("compute_attractors_symbolic on a sub-network diagram")
-    space = rawspace(node["space"])
+    base = nctx[0]
+    nv = netvars(nctx)
+    others = [v for v in range(net.n) if base[v] is None and v not in nv]
+    space = gspace(nctx, node["space"])
+    if space is None:
+        raise Unmodelled("node space conflicts with the network context")
+    override = base if any(b is not None for b in base) else None
     motifs = []
     if node["expanded"]:
         for c in sd.dag.successors(node_id):
-            motifs.append(rawspace(sd.edge_stable_motif(node_id, c)))
-    cands = [net.state_of(c) for c in candidate_states]
-    seedset = [net.state_of(s) for s in seeds]
+            motifs.append(gspace(nctx, sd.edge_stable_motif(node_id, c)))
+
+    def lift(d):
+        """state of the (sub)network -> global state (outside variables read as 0)"""
+        x = [0 if b is None else b for b in base]
+        for k, v in d.items():
+            x[net.names.index(k)] = int(v)
+        return tuple(x)
+
+    def fibre(x):
+        """all global states that agree with x on the network's variables"""
+        out = []
+        for vals in itertools.product((0, 1), repeat=len(others)):
+            y = list(x)
+            for v, b in zip(others, vals):
+                y[v] = b
+            out.append(tuple(y))
+        return out
+
+    def sub_reach(x, y):
+        return net.Or([net.reach(x, y2, override) for y2 in fibre(y)])
+    sub_states = []
+    for vals in itertools.product((0, 1), repeat=len(nv)):
+        x = [0 if b is None else b for b in base]
+        for v, b in zip(nv, vals):
+            x[v] = b
+        x = tuple(x)
+        if in_space(x, tuple(None if i in others else space[i] for i in range(net.n))):
+            sub_states.append(x)
+    cands = [lift(c) for c in candidate_states]
+    seedset = [lift(s) for s in seeds]
     pseudo_min = len(motifs) == 0
-    accepted = []   # (state, concrete accepted?) in order
+    accepted = []
     for i, c in enumerate(cands):
         if seeds_only and pseudo_min and i == len(cands) - 1 and not any(a for _, a in accepted):
-            # the code returns the last candidate unchecked; no observation
-            break
+            break   # the code returns the last candidate unchecked; no observation
         later = cands[i + 1:]
         hit = []
-        for y in net.states:
-            if not in_space(y, space):
-                continue
-            if any(in_space(y, m) for m in motifs) or y in later:
-                hit.append(net.reach(c, y))
+        for y in sub_states:
+            if any(in_space(y, tuple(None if k in others else m[k] for k in range(net.n))) for m in motifs) or y in later:
+                hit.append(sub_reach(c, y))
         for (a, acc) in accepted:
             if acc:
-                for z in net.states:
-                    if in_space(z, space):
-                        hit.append(z3.And(net.reach(c, z), net.reach(a, z)))
+                for z in sub_states:
+                    hit.append(z3.And(sub_reach(c, z), sub_reach(a, z)))
         is_seed = c in seedset
-        CTX.obs_eq(z3.Not(net.Or(hit)), is_seed, "compute_attractors_symbolic", c)
+        CTX.obs_eq(fNot(net.Or(hit)), is_seed, "compute_attractors_symbolic", c)
         accepted.append((c, is_seed))
     return seeds, sets
 
